@@ -696,8 +696,12 @@ func C08(c *fw.Ctx) {
 				return
 			}
 			a, b := findOut(base, "json"), findOut(res, "json")
+			if sig, what := onlyOneSerialises(a, b); sig != "" {
+				c.Violate("rewrite-not-serialisable:"+rw.kind, fmt.Sprintf("%s (%s) of %s: the original has a catalog, the rewrite is accepted but has none: %s", rw.kind, rw.site, d.name, what), rp)
+				return
+			}
 			if a == nil || b == nil || a.Bytes == nil || b.Bytes == nil {
-				return // ToJson problems are judged by C04
+				return // ToJson problems of the original are judged by C04
 			}
 			na, e1 := normJSON(a.Bytes)
 			nb, e2 := normJSON(b.Bytes)
@@ -764,7 +768,8 @@ func c08LayoutPairs(c *fw.Ctx, pool *proc.Pool) {
 		{"indent-4", func(l *model.Layout) { l.Unit = "    " }}, {"indent-tab", func(l *model.Layout) { l.Unit = "\t" }}, {"indent-none", func(l *model.Layout) { l.FlatIndent = true; l.ExplicitP = 100 }},
 		{"comments", func(l *model.Layout) { l.Comments = true }}, {"trailing-blanks", func(l *model.Layout) { l.Trailing = true }},
 		{"quote-all", func(l *model.Layout) { l.QuoteAll = true }}, {"block-annotations", func(l *model.Layout) { l.BlockAnn = true }},
-		{"explicit-contexts", func(l *model.Layout) { l.ExplicitP = 100 }}, {"explicit-some", func(l *model.Layout) { l.ExplicitP = 50 }}, {"token-gaps", func(l *model.Layout) { l.Gaps = true }},
+		{"explicit-contexts", func(l *model.Layout) { l.ExplicitP = 100 }}, {"explicit-some", func(l *model.Layout) { l.ExplicitP = 50 }},
+		{"explicit-even-siblings", func(l *model.Layout) { l.ExplicitAlt = 1 }}, {"explicit-odd-siblings", func(l *model.Layout) { l.ExplicitAlt = 2 }}, {"token-gaps", func(l *model.Layout) { l.Gaps = true }},
 	}
 	type pairState struct {
 		base     *proto.Result
@@ -792,6 +797,10 @@ func c08LayoutPairs(c *fw.Ctx, pool *proc.Pool) {
 			return
 		}
 		a, b := findOut(st.base, "json"), findOut(res, "json")
+		if sig, what := onlyOneSerialises(a, b); sig != "" {
+			c.Violate("rewrite-not-serialisable:layout-pair:"+dim, fmt.Sprintf("model %s: the plain rendering has a catalog, the one that differs in %s is accepted but has none: %s", id, dim, what), rp)
+			return
+		}
 		if a == nil || b == nil || a.Bytes == nil || b.Bytes == nil {
 			return
 		}
@@ -813,12 +822,14 @@ func c08LayoutPairs(c *fw.Ctx, pool *proc.Pool) {
 			id := fmt.Sprintf("%d", i)
 			base := model.PlainLayout()
 			base.R = gen.Rng(c.Seed, c.ID, "pair-structure", id)
+			base.URLExtrasLast = i%2 == 1
 			rd := m.Render(base)
 			st := &pairState{baseDoc: rd.Files[rd.Root], variants: map[string]*proto.Result{}, docs: map[string][]byte{}}
 			var jobs []*proto.Job
 			for _, v := range variants {
 				l := model.PlainLayout()
 				v.set(l)
+				l.URLExtrasLast = i%2 == 1
 				l.R = gen.Rng(c.Seed, c.ID, "pair-structure", id)
 				rv := m.Render(l)
 				st.docs[v.dim] = rv.Files[rv.Root]
